@@ -262,6 +262,7 @@ func (m *Module) checkIfStopComplete() {
 		atomic.LoadInt32(m.microTaskCnt) == 0 {
 
 		if m.stopCompleted.SetToIf(false, true) {
+			verifPoint("stop.beforeclose", m)
 			m.Lock()
 			defer m.Unlock()
 			close(m.stopComplete)
@@ -299,15 +300,19 @@ func (m *Module) stopAllTasks(reports chan *report) {
 	// Manually set the control function flag in order to stop completion by race
 	// condition before stop function has even started.
 	m.ctrlFuncRunning.Set()
+	verifPoint("stop.ctrlset", m)
 
 	// Set stop flag for everyone checking this flag before we activate any stop trigger.
 	m.stopFlag.Set()
+	verifPoint("stop.flagset", m)
 
 	// Cancel the context to notify all workers and tasks.
 	m.cancelCtx()
+	verifPoint("stop.cancelled", m)
 
 	// Start stop function.
 	stopFnError := m.startCtrlFn("stop module", m.stopFn)
+	verifPoint("stop.fnstarted", m)
 
 	// wait for results
 	select {
